@@ -670,6 +670,15 @@ example :
     ((eraserStep a 10 false).hist.map (·.sec), (eraserStep a 10 false).recs.map (·.sec), (eraserStep a 10 true).recs.map (·.sec),
      (eraserStep a 10 true).dropped) = ([150], [150], [], [150]) := by decide
 
+/-- the eraser pass is an operation of the composed system (`Op.erase now over`): `no_silent_loss`, `erase_after_ack` and
+`erase_trace` range over it, with the disk-limit drop recorded in `dropped` as a deliberate loss -/
+example :
+    let s := reach true false 50 1000 3 200 [.overflow 150, .erase 10 false, .erase 10 true]
+    (s.flushed, heldSecs s.ag, s.ag.dropped) = ([150], [], [150]) := by decide
+example :
+    let s := reach true false 50 1000 3 200 [.overflow 150, .erase 10 false]
+    (heldSecs s.ag, s.ag.dropped) = ([150, 150], []) := by decide
+
 /-! ### liveness, schedule-existence form -/
 
 /-- **can_always_finish_partial.** From every reachable state in which a second is the (first) oldest entry of the agent's
